@@ -1,5 +1,6 @@
 mod capture;
 mod cfgsuite;
+mod clisuite;
 mod codec;
 mod concsuite;
 mod gen_codec;
@@ -39,6 +40,7 @@ fn run_cases(cases: &str, out: &str, dir: &str) {
             "srv" => srvsuite::run_srv(&toks, &dir),
             "pair" => pairsuite::run_pair(&toks, &dir, &mut cap),
             "conc" => concsuite::run_conc(&toks, &dir),
+            "cli" => clisuite::run_cli(&toks, &dir),
             "cfg" => cfgsuite::run_cfg(&toks),
             "cfgperm" => cfgsuite::run_cfgperm(&toks),
             "ccfg" => cfgsuite::run_ccfg(&toks),
